@@ -27,6 +27,8 @@ import (
 	"google.golang.org/grpc/resolver"
 	"google.golang.org/grpc/status"
 	"google.golang.org/protobuf/types/known/emptypb"
+	"reflect"
+	"unsafe"
 )
 
 type vrSC struct{ id int }
@@ -359,6 +361,8 @@ type vsgEvent struct {
 	News  int    `json:"news"`
 	Leak  int    `json:"leak"`  // sum of the stream counters after every call completed
 	CntOk bool   `json:"cntok"` // evaluator counters equal the cardinalities of the recorded states
+	RRMin int    `json:"rrmin"` // round-robin rounds: fewest / most BIND calls handed to one channel
+	RRMax int    `json:"rrmax"`
 	Res   string `json:"res"`
 	Cfg   vCfg   `json:"cfg"`
 }
@@ -456,4 +460,125 @@ func TestVerifStressGrowth(t *testing.T) {
 		enc.Encode(vsgEvent{Sid: fmt.Sprintf("stress-%d", k), I: 1, Op: "stress", Kind: "growth", Pool: pool, Max: max, News: news, CntOk: true, Res: "OK"})
 	}
 	fmt.Printf("VERIF-STRESS-GROWTH rounds=%d\n", rounds)
+}
+
+
+// ---- round-robin BIND under concurrency and across the 2^31 boundary of the cursor (C09).
+// n READY channels, w goroutines x m BIND picks with n | w*m: "any n x k consecutive BIND calls put exactly k on each
+// channel" - concurrent calls are consecutive in some order, so the totals per channel must be equal. Kind "rrwrap": the
+// cursor is set close to 2^31 first (white-box; stands for a history of two billion BIND calls) and 4n sequential BINDs
+// must still rotate.
+func vrrRound(seed int64, n, workers, per int, wrap bool) (min, max int, res string) {
+	fcc := &vrFakeCC{}
+	gb := newBuilder().Build(fcc, balancer.BuildOptions{})
+	cfg := vCfg{Min: n, Max: n, Wm: 100, Rr: true}
+	bc := &GCPBalancerConfig{ApiConfig: vApiConfig(cfg)}
+	gb.UpdateClientConnState(balancer.ClientConnState{ResolverState: resolver.State{Addresses: vAddrs(1)}, BalancerConfig: bc})
+	for _, c := range fcc.conns {
+		gb.UpdateSubConnState(c, balancer.SubConnState{ConnectivityState: connectivity.Ready})
+	}
+	fcc.mu.Lock()
+	picker := fcc.pubs[len(fcc.pubs)-1].Picker
+	conns := append([]*vrSC{}, fcc.conns...)
+	fcc.mu.Unlock()
+	counts := make([]int64, len(conns))
+	idx := map[balancer.SubConn]int{}
+	for i, c := range conns {
+		idx[c] = i
+	}
+	res = "OK"
+	var bad int32
+	one := func() {
+		defer func() {
+			if p := recover(); p != nil {
+				atomic.StoreInt32(&bad, 1)
+			}
+		}()
+		pr, err := picker.Pick(balancer.PickInfo{FullMethodName: vmBind, Ctx: context.Background()})
+		if err != nil {
+			atomic.StoreInt32(&bad, 2)
+			return
+		}
+		if i, ok := idx[pr.SubConn]; ok {
+			atomic.AddInt64(&counts[i], 1)
+		}
+		if pr.Done != nil {
+			pr.Done(balancer.DoneInfo{})
+		}
+	}
+	if wrap {
+		f := reflect.ValueOf(gb).Elem().FieldByName("rrRefId")
+		if f.IsValid() {
+			pf := reflect.NewAt(f.Type(), unsafe.Pointer(f.UnsafeAddr())).Elem()
+			switch pf.Kind() {
+			case reflect.Uint32, reflect.Uint64, reflect.Uint:
+				pf.SetUint(1<<31 - 5)
+			case reflect.Int32, reflect.Int64, reflect.Int:
+				pf.SetInt(1<<31 - 5)
+			}
+		}
+		for k := 0; k < 4*n; k++ {
+			one()
+		}
+	} else {
+		var wg sync.WaitGroup
+		for w := 0; w < workers; w++ {
+			wg.Add(1)
+			go func() {
+				defer wg.Done()
+				for k := 0; k < per; k++ {
+					one()
+				}
+			}()
+		}
+		wg.Wait()
+	}
+	switch atomic.LoadInt32(&bad) {
+	case 1:
+		res = "PANIC"
+	case 2:
+		res = "ERR"
+	}
+	min, max = int(counts[0]), int(counts[0])
+	for _, c := range counts {
+		if int(c) < min {
+			min = int(c)
+		}
+		if int(c) > max {
+			max = int(c)
+		}
+	}
+	return
+}
+
+func TestVerifStressRR(t *testing.T) {
+	out := os.Getenv("VERIF_OUT")
+	if out == "" {
+		t.Skip("VERIF_OUT not set")
+	}
+	seed, _ := strconv.ParseInt(os.Getenv("VERIF_SEED"), 10, 64)
+	rounds, _ := strconv.Atoi(os.Getenv("VERIF_N"))
+	if rounds == 0 {
+		rounds = 10
+	}
+	fo, err := os.Create(out)
+	if err != nil {
+		t.Fatal(err)
+	}
+	defer fo.Close()
+	enc := json.NewEncoder(fo)
+	for k := 0; k < rounds; k++ {
+		n := 2 + k%3
+		cfg := vCfg{Min: n, Max: n, Wm: 100, Rr: true}
+		sid := fmt.Sprintf("rr-%d", k)
+		enc.Encode(vsgEvent{Sid: sid, Op: "reset", Res: "OK", Cfg: cfg})
+		wrap := k%4 == 3
+		kind := "rr"
+		if wrap {
+			kind = "rrwrap"
+		}
+		mn, mx, res := vrrRound(seed*1000+int64(k), n, 12, 500*n, wrap)
+		enc.Encode(vsgEvent{Sid: sid, I: 1, Op: "stress", Kind: kind, RRMin: mn, RRMax: mx, CntOk: true, Res: res})
+	}
+	fmt.Printf("VERIF-STRESS-RR rounds=%d\n", rounds)
 }
